@@ -250,3 +250,22 @@ def run(ctx):
     finally:
         # numeric kernels this property's formulas rest on, pinned as canonical expression trees
         check_kernels(ctx, "C13.K", ['calculate_max_leverage'])
+        _validator_loops(ctx)
+
+
+def _validator_loops(ctx):
+    """C13.R2: the e-mode entry validator examines every entry: no slot (empty or not) ends the scan early."""
+    prog = ctx.prog
+    fs = prog.find_fns({"name": "validate_entries_with_liability_weights", "crate": "marginfi", "self_adt": "EmodeSettings"})
+    if len(fs) != 1:
+        ctx.missing("C13.R2", "validate_entries_with_liability_weights")
+        return
+    f = fs[0]
+    loops = [c for c in f.calls() if c.callee and c.callee["name"] == "next" and expr_tree(prog, f, c.args[0]) in ("into_iter(p1.emode_config.entries)", "into_iter(iter(p1.emode_config.entries))", "iter(p1.emode_config.entries)")]
+    bad = [x for c in loops for x in loop_early_exits(prog, f, c.block)]
+    ctx.inst("C13.R2", "emode/validator-visits-every-entry", len(loops) == 1 and not bad,
+             "the per-entry checks run for every slot of emode_config.entries: the loop is left only when the iterator is exhausted or on an error",
+             ["%s leaves the loop at %s" % (c, f.bloc(u)) for u, v, c in bad] or ("%d loops over the entries" % len(loops)), f.loc(f.raw["span"]))
+    # empty entries are skipped, not validated: the skip edge returns to the loop header
+    sk = [bi for bi, bb in enumerate(f.blocks) if bb["t"]["k"] == "switch" and switch_cond(prog, f, bi, "else").startswith("is_empty(next(")]
+    ctx.inst("C13.R2", "emode/validator-skips-only-empty", len(sk) == 1, "the only entries not validated are the empty ones (tag 0)", "%d is_empty tests" % len(sk), f.loc(f.raw["span"]))
